@@ -1,6 +1,7 @@
 import ConfModel.Driver.Common
 import ConfModel.Model.Assert
 import ConfModel.Model.AssertPath
+import ConfModel.Model.AssertSeq
 import ConfModel.Spec.Agree
 import ConfModel.Generated.C03Facts
 namespace ConfModel.Driver.C03
@@ -104,6 +105,46 @@ def judgeRun (st : StreamType) (other : List Nat) (e : Result) (reply : Reply) (
     | _, _ => if passed then "passed-without-result: a reply without a reported result was recorded as passed" ++ at_ else ""
   (agree, why)
 
+/-! #### op "seqassert" -/
+
+structure SeqPair where
+  st : StreamType
+  other : List Nat
+  e : Result
+  a : Result
+  expect : String
+  mutn : String
+  deriving Inhabited
+
+def pSeqPair (j : Json) : SeqPair :=
+  { st := pStream (nat (field j "st")), other := natList (field j "other"), e := pResult (field j "exp"),
+    a := pResult (field j "act"), expect := str (field j "expect"), mutn := str (field j "mut") }
+
+def pSeqCall (pairs : Array SeqPair) (j : Json) : AssertSeq.Call :=
+  let ns := strList (field j "ns")
+  let n := ns.headD ""
+  match str (field j "k") with
+  | "assert" => let p := pairs[nat (field j "pair")]!; .assert n p.st p.other p.e p.a
+  | "failed" => .failed n
+  | "neither" => .neither n
+  | "setup" => .setup n
+  | "start" => .start ns
+  | "remaining" => .remaining ns
+  | _ => .sideband n (str (field j "msg"))
+
+def failKind : Option AssertSeq.Fail → String × List String
+  | none => ("none", [])
+  | some (.discrepancies ds) => ("discrepancies", ds.map render)
+  | some .client => ("client", []) | some .neither => ("neither", []) | some .setup => ("setup", [])
+  | some .start => ("start", []) | some .noResult => ("noResult", []) | some (.sideband _) => ("sideband", [])
+
+/-- the index (in `pairs`) of the pair of the last call that stores an outcome for `n`, when that
+call is an `assert` -/
+def lastAssertPair (n : String) (calls : List (AssertSeq.Call × Json)) : Option Nat :=
+  match (calls.reverse.find? fun (c, _) => c.writes n) with
+  | some (.assert _ _ _ _ _, j) => some (nat (field j "pair"))
+  | _ => none
+
 def handle : Handler := fun op inp impl =>
   if !(isNull (field impl "panic")) then
     { agree := false, holds := false, why := "panic: " ++ str (field impl "panic") } else
@@ -170,6 +211,57 @@ def handle : Handler := fun op inp impl =>
       model := Json.mkObj [("direct", toJson mDirect), ("verdict", toJson (verdictStr (deliver default grace st other e reply).verdict))],
       why := why,
       cls := "path:" ++ (if !isResp then kindR else if !wf then "not-well-formed" else if agrees then "agree:" ++ kind else "deviate:" ++ kind) }
+  | "seqassert" =>
+    let pool := strList (field inp "pool")
+    let pairs := ((arr (field inp "pairs")).map pSeqPair).toArray
+    let callsJ := arr (field inp "calls")
+    let calls := callsJ.map (pSeqCall pairs)
+    let total := nat (field inp "total")
+    let s := AssertSeq.run grace calls
+    -- the implementation's observations
+    let iOut := (arr (field impl "outcomes")).map fun o =>
+      (str (field o "n"), bool (field o "setup"), str (field o "kind"), strList (field o "errs"))
+    let iListed := strList (field impl "listed")
+    let iGet (n : String) := iOut.find? (·.1 == n)
+    -- the model's
+    let mOut := pool.filterMap fun n => (AssertSeq.get s.outcomes n).map fun o =>
+      let (k, es) := failKind o.failure; (n, o.setupError, k, es)
+    let mListed := pool.filter (AssertSeq.listedFailed s)
+    let mCount := (pool.filter (AssertSeq.hasOutcome s)).length
+    let mNotRun := total - mCount
+    let agree := iOut == mOut && iListed == mListed && nat (field impl "total") == mCount &&
+      nat (field impl "failed") == mListed.length && nat (field impl "passed") == mCount - mListed.length &&
+      nat (field impl "notRun") == mNotRun && bool (field impl "ok") == (mListed.isEmpty && mNotRun == 0) &&
+      nat (field impl "otherLines") == 0
+    -- the property on the implementation's output: a name whose last stored outcome is a comparison
+    -- shows the verdict of THAT comparison
+    let whys := pool.filterMap fun n =>
+      match lastAssertPair n (calls.zip callsJ) with
+      | none => none
+      | some k =>
+        let p := pairs[k]!
+        let sb := calls.any (·.isSidebandFor n)
+        let at_ := " [name " ++ n ++ ", pair " ++ toString k ++ " " ++ p.mutn ++ "]"
+        match iGet n with
+        | none => some ("unpublished: no outcome is stored for a name that was compared" ++ at_)
+        | some (_, setup, kind, errs) =>
+          let passed := kind == "none"
+          let listed := iListed.contains n
+          if setup then some ("stale: the outcome of the name is a setup error although its last call was a comparison" ++ at_)
+          else if !(kind == "none" || kind == "discrepancies") then some ("stale: the outcome of the name is " ++ kind ++ " although its last call was a comparison" ++ at_)
+          else if !sb && listed != !passed then some ("report: FAILED listing (" ++ toString listed ++ ") does not show the stored verdict" ++ at_)
+          else if !decide (WellFormed p.e p.a) then none
+          else
+            let agrees := decide (Agree grace p.st p.other p.e p.a)
+            if passed && !agrees then some ("missed: the last reported result does not agree but the name passed" ++ at_)
+            else if !passed && agrees then some ("spurious: the last reported result agrees up to the documented leniencies but " ++ toString errs ++ " is published" ++ at_)
+            else if !(p.expect.isEmpty || errs.contains p.expect) then some ("unnamed: the deviation of the last comparison must be named as " ++ p.expect ++ " but " ++ toString errs ++ " is published" ++ at_)
+            else none
+    let why := whys.headD ""
+    let repeated := pool.any fun n => (calls.filter (·.writes n)).length > 1
+    { agree := agree, holds := why.isEmpty, nontrivial := repeated,
+      model := Json.mkObj [("listed", toJson mListed), ("outcomes", toJson (mOut.map fun (n, su, k, es) => Json.mkObj [("n", toJson n), ("setup", toJson su), ("kind", toJson k), ("errs", toJson es)]))],
+      why := why, cls := if repeated then "seq:repeated-name" else "seq:unique-names" }
   | "canon" =>
     let vals := (strList (field inp "vals")).map String.toList
     let ic := (strList (field impl "canon")).map String.toList
